@@ -3,6 +3,7 @@ import os
 import vlib
 import ringgen
 import rowgen
+import bbgen
 
 LIB = ["ringbuffer", "ringbuffer_helper", "unix", "util", "log", "log_thread", "log_blackbox",
        "log_file", "log_syslog", "log_dcs", "log_format", "array", "hdb", "map", "skiplist",
@@ -43,26 +44,42 @@ def run(ctx):
     vlib.lean_prepare(ctx)
     ctx.compile_lib(sources=LIB)
     exe = ctx.compile_harness("rb/rb_seq.c")
-    # blackbox clause: the real blackbox target, dump and printer (C15's harness, used unchanged)
+    # blackbox clause: the real blackbox target, dump and printer (C15's harness + the ops maxline / resize)
+    # against the compiled model of the blackbox layer (Model/Blackbox.lean, driver qb_blackbox)
     bbexe = ctx.compile_harness("log/bb_print.c", extra=["-Wl,--wrap=qb_vsnprintf_deserialize"])
+    # C11_D32=1: for a tree with fixes/D32-blackbox-too-long-bound.patch applied (model of the repaired
+    # _blackbox_vlogger, generator includes max_line_length < 78)
+    d32 = bool(os.environ.get("C11_D32"))
+    margs = ["--page", str(os.sysconf("SC_PAGESIZE"))] + (["--d32"] if d32 else [])
+
+    def bb_oracle(ops, out):
+        return bbgen.oracle(ops, out, d32=d32)
+
+    def bb_stream(cases, name):
+        return vlib.differential(ctx, bbexe, "blackbox", cases, bb_oracle, name, compare=bbgen.compare, batch=10,
+                                 model_args=margs, nontrivial=bbgen.tags)
     if ctx.replay:
         cases = vlib.read_case_file(ctx.replay)
         bb = [c for c in cases if c[1] and c[1][0].startswith("mk ")]
         rb = [c for c in cases if not (c[1] and c[1][0].startswith("mk "))]
         vlib.differential(ctx, exe, "ring", rb, oracle, "replay", nontrivial=tag)
-        vlib.differential(ctx, bbexe, "no-model", bb, rowgen.bb_oracle, "replay-blackbox", nontrivial=rowgen.bb_tags)
+        bb_stream(bb, "replay-blackbox")
         return
     # C11_NO_CORPUS=1: sensitivity experiments only (does the generated stream alone find a breakage?)
     corpus = [] if os.environ.get("C11_NO_CORPUS") else vlib.corpus_cases("C11")
-    vlib.differential(ctx, exe, "ring", corpus, oracle, "corpus", nontrivial=tag)
+    vlib.differential(ctx, exe, "ring", [c for c in corpus if not c[1][0].startswith("mk ")], oracle, "corpus",
+                      nontrivial=tag)
+    bb_stream([c for c in corpus if c[1][0].startswith("mk ")], "corpus-blackbox")
     if ctx.violations:
         return
-    # records logged through the real blackbox target, dumped at generated moments, printed from the file
-    # (oracle only: the model side of this clause is the alloc/commit refinement, theorem ow_history_alloc_commit)
+    # records logged through the real blackbox target AND the model of the blackbox layer, dumped at generated
+    # moments: the dump files are compared byte for byte, the file is printed by the real printer and the
+    # python oracle evaluates the blackbox sentence of C11 on the printed records
     nb = ctx.scale(60, 600)
-    bbcases = [("b%d" % i, rowgen.gen_bb_case(ctx.rng)) for i in range(nb)]
-    vlib.differential(ctx, bbexe, "no-model", bbcases, rowgen.bb_oracle, "blackbox", batch=10, nontrivial=rowgen.bb_tags)
-    if ctx.violations:
+    bbcases = [("b%d" % i, rowgen.gen_bb_case(ctx.rng)) for i in range(nb // 3)]       # default configuration
+    bbcases += [("c%d" % i, bbgen.gen_case(ctx.rng, d32=d32)) for i in range(nb - nb // 3)]   # sizes, line limits, reloads
+    bb_stream(bbcases, "blackbox")
+    if ctx.violations or ctx.broken:
         return
     n = ctx.scale(1200, 30000)
     cases = [("w%d" % i, rowgen.gen_case(ctx.rng)) for i in range(n)]
